@@ -1,5 +1,6 @@
 SPECIFICATION Spec
 CONSTANTS
+  ReorgMarked = TRUE
   N = 3
   MaxDeliver = 3
   MaxCrash = 2
@@ -7,5 +8,5 @@ CONSTANTS
   ReadFill = FALSE
   Forks = FALSE
   Gaps = TRUE
-INVARIANTS InvCache InvHeadLinked InvIndex InvHeadState InvMarks InvExecuted InvWeightMonotone InvCrashHeadWeak
+INVARIANTS InvCache InvHeadLinked InvIndex InvHeadState InvMarks InvExecuted InvWeightMonotone InvCrashHeadStrict
 CHECK_DEADLOCK FALSE
